@@ -720,9 +720,10 @@ Error Message: {}
                 result = AUTH_FAILED
                 self._send_auth_result(username, method, result)
                 raise
-            result = AUTH_SUCCESSFUL
-            self.transport.server_object.check_auth_gssapi_keyex(
-                username, result
+            # the GSS check passed; whether this user may log in that way is
+            # the server application's decision
+            result = self.transport.server_object.check_auth_gssapi_keyex(
+                username, AUTH_SUCCESSFUL
             )
         else:
             result = self.transport.server_object.check_auth_none(username)
@@ -942,9 +943,10 @@ class GssapiWithMicAuthHandler:
         # TODO: Implement client credential saving.
         # The OpenSSH server is able to create a TGT with the delegated
         # client credentials, but this is not supported by GSS-API.
-        result = AUTH_SUCCESSFUL
-        self.transport.server_object.check_auth_gssapi_with_mic(
-            username, result
+        # the GSS check passed; whether this user may log in that way is the
+        # server application's decision
+        result = self.transport.server_object.check_auth_gssapi_with_mic(
+            username, AUTH_SUCCESSFUL
         )
         # okay, send result
         self._send_auth_result(username, self.method, result)
